@@ -2,21 +2,131 @@
 # harness and the driver with C01 (tools/props/c01.py); mode `c02` of the harness races wake-ups
 # against suspension under perturbation of exactly the hand-off windows and has a quiescence
 # watchdog that turns a lost wake-up into a monitor hit.
+import json
 import os
 import sys
 
 sys.path.insert(0, os.path.dirname(os.path.abspath(__file__)))
 from props import c01 as base  # noqa: E402
+from vlib import Hit, sh  # noqa: E402
+
+WINDOW_ASSUMPTION = (
+    'scenario wake_in_window (harness/c02_window.cpp): the target is HELD by the hook function at hooks 204 / 205 / 206 (inside the window '
+    '"registered as a waiter, internal lock released, state word still active") while the waker reads the word and issues the wake-up; '
+    'the hold keeps the worker (204/205: the coroutine, 206: the scheduling loop) busy-waiting for at most hold_limit_us after the waker '
+    'fired, which stretches a window that exists in the unhooked code (100 ns .. 1 us there) and adds no behaviour')
 
 ASSUMPTIONS = base.ASSUMPTIONS + [
     'restart reasons other than `signaled` (abort = thread::interrupt of a task suspended in a semaphore / cv / mutex wait) are exercised on the real runtime only (scenario after_interrupted_wait: ledger + quiescence watchdog + "marked active, inside no worker\'s coroutine" watch; its state-word chains go through the acceptor, which compares (state, tag)); the Coq model keeps state_ex constant, which is what restore_state documents ("ignore the state_ex while compare-exchanging")',
     'a wake-up is "issued after registration" when the waker pops the waiter entry under the primitive\'s internal lock (SIssue); the guarantee is for the suspension that ends the phase in which the task registered',
     'that helper tasks and re-queued tasks are eventually scheduled is fairness of the runtime (stuck-state theorem only)',
+    WINDOW_ASSUMPTION,
 ]
 
 
+
+
+def window_process(ctx, r, hb, args, notes_prefix=''):
+    """one process of harness/c02_window.cpp; returns (rc, index of the case that ended the process or None)"""
+    rc, out = sh([hb] + [str(a) for a in args], timeout=200, env={'PIKA_LOG_LEVEL': '6'})
+    lines = out.split('\n')
+    rep = {'harness': 'c02_window', 'args': [str(a) for a in args]}
+    ended_at = None
+    for wl in [x for x in lines if x.startswith('WIN ')]:
+        f = dict(x.split('=', 1) for x in wl.split(' ')[2:] if '=' in x)
+        idx = int(wl.split(' ')[1])
+        r.evaluations += 1
+        r.count('window_cases')
+        r.count('window_case=%s:%s' % (f.get('wake', '?'), f.get('facility', '?')))
+        r.count('window_site=%s' % f.get('site', '?'))
+        r.count('window_waker=%s' % f.get('waker', '?'))
+        r.count('window_workers=%s' % f.get('workers', '?'))
+        r.count('window_outcome=%s' % f.get('outcome', '?'))
+        if f.get('in_window') == '1':
+            # the waker read the state word (`active`) while the target was held inside the window
+            r.count('window_wake_issued_inside_window')
+            r.count('window_%s_issued_inside_window' % f.get('wake', '?'))
+            r.nontrivial('window %s %s %s %s %s' % (f.get('workers'), f.get('facility'), f.get('wake'), f.get('site'), f.get('waker')))
+        else:
+            r.count('window_wake_issued_outside_window')
+        if int(f.get('helper_created', '0')) > 0:
+            r.count('window_cases_with_retry_helper_created')       # hook 208 for the target while it was held
+        if int(f.get('helper_runs', '0')) > 0 and int(f.get('need_runs', '0')) > 0:
+            r.count('window_cases_helper_ran_against_active_target')
+        if len([x for x in r.samples if isinstance(x, dict) and x.get('scenario') == 'wake_in_window']) < 2:
+            r.samples.append({'scenario': 'wake_in_window', 'replay_args': [args[0], args[1], idx, 1], 'case': wl[:400]})
+    mons = [x for x in lines if x.startswith('MON ')]
+    for m in mons:
+        p = m.split(' ')
+        idx = int(p[1])
+        ended_at = idx
+        kind = p[3].split('=', 1)[1] if len(p) > 3 and p[3].startswith('kind=') else '?'
+        r.hits.append(Hit('monitor', 'C02:%s:%s' % (p[2], kind),
+                          'wake-up issued into the window registered / not yet suspended is lost on the real runtime '
+                          '(%s workers, case %d of seed %s): %s' % (args[1], idx, args[0], m[:1200]),
+                          {'harness': 'c02_window', 'args': [str(args[0]), str(args[1]), str(idx), '1'], 'line': m[:600]}))
+    inconc = [x for x in lines if x.startswith('INCONCLUSIVE ')]
+    if inconc:
+        r.count('window_inconclusive_setup')
+        r.notes.append('%swindow scenario, %s workers: %s' % (notes_prefix, args[1], inconc[0]))
+        try:
+            ended_at = int(inconc[0].split(' ')[1])
+        except Exception:
+            pass
+    if rc not in (0, 3, 4) or (rc == 3 and not mons):
+        tail = ' | '.join([x for x in lines if x and not x.startswith('WIN ')][-5:])
+        last = [x for x in lines if x.startswith('WIN ')]
+        what = 'hang' if rc == 124 else 'crash'
+        nxt = (int(last[-1].split(' ')[1]) + 1) if last else int(args[2])
+        ended_at = nxt
+        r.hits.append(Hit('monitor', 'C02:%s:wake_in_window' % what,
+                          'harness c02_window %s (rc=%d) in case %d (%s workers): %s' % (what, rc, nxt, args[1], tail[-700:]),
+                          {'harness': 'c02_window', 'args': [str(args[0]), str(args[1]), str(nxt), '1'], 'rc': rc}))
+    elif rc == 0 and not [x for x in lines if x.startswith('SUMMARY ')]:
+        r.hits.append(Hit('tie', 'C02:harness_output', 'c02_window produced no SUMMARY line: ' + ' | '.join(lines[-4:])[:600], rep))
+    return rc, ended_at
+
+
+def run_window(ctx, r):
+    """wake-ups (thread::interrupt and the facility's own notify) issued while the target is held inside the window
+    "registered as a waiter, internal lock released, state word still active" (hooks 204 / 205 / 206)"""
+    hb = ctx.build_harness('c02_window', 'c02_window.cpp')
+    quick = ctx.tier == 'quick'
+    workers = (1, 4) if quick else (1, 2, 3, 4, 8)
+    count = 30 if quick else 150
+    for W in workers:
+        first, restarts = 0, 0
+        while first < count and restarts <= 2:
+            rc, ended_at = window_process(ctx, r, hb, [ctx.seed, W, first, count - first])
+            if rc == 0 or ended_at is None:
+                break
+            # a lost wake-up ends the process (the runtime cannot shut down): go on behind that case
+            first = ended_at + 1
+            restarts += 1
+    if not r.hits and r.dist.get('window_interrupt_issued_inside_window', 0) == 0:
+        r.hits.append(Hit('tie', 'C02:scenario:wake_in_window',
+                          'no interrupt was issued while its target was held inside the window (registered, state word still '
+                          'active) in this run: the scenario of harness/c02_window.cpp did not reach the window', {}))
+    elif not r.hits and r.dist.get('window_notify_issued_inside_window', 0) == 0:
+        r.hits.append(Hit('tie', 'C02:scenario:wake_in_window',
+                          'no facility notify was issued while its target was held inside the window in this run', {}))
+
+
 def run(ctx):
+    if ctx.replay:
+        try:
+            rep = json.load(open(ctx.replay)).get('replay', {})
+        except Exception:
+            rep = {}
+        if rep.get('harness') == 'c02_window' and len(rep.get('args', [])) >= 4:
+            r = base.Result()
+            ctx.build_pika()
+            hb = ctx.build_harness('c02_window', 'c02_window.cpp')
+            window_process(ctx, r, hb, rep['args'][:4])
+            return r
     r = base.run_modes(ctx, 'C02', ['c02'], 'ExtractC02.v', 'drv_c02.ml', 'c02_wake.cpp', 'c02_wake')
+    if not ctx.replay:
+        run_window(ctx, r)
     if not ctx.replay and r.dist.get('interrupted_in_wait', 0) == 0 and not r.hits:
         r.hits.append(base.Hit('tie', 'C02:scenario:after_interrupted_wait',
                                'no task was interrupted inside a wait (restart reason abort) in this run: the scenario '
